@@ -46,7 +46,7 @@ def read_irrigation_management(
             # be applied for every day in the simulation
             df = df.reindex(ClockStruct.time_span, fill_value=0).drop("Date", axis=1)
 
-            IrrMngt.Schedule = np.array(df.values, dtype=float).flatten()
+            schedule = np.array(df.values, dtype=float).flatten()
             
         except TypeError:
             # older version of pandas with not reindex
@@ -61,11 +61,11 @@ def read_irrigation_management(
             # fill in the new dataframe with irrigation schedule
             new_df.loc[df.index]=df.Depth.values
 
-            IrrMngt.Schedule = np.array(new_df.values, dtype=float).flatten()
+            schedule = np.array(new_df.values, dtype=float).flatten()
 
     else:
 
-        IrrMngt.Schedule = np.zeros(len(ClockStruct.time_span))
+        schedule = np.zeros(len(ClockStruct.time_span))
 
     IrrMngt.SMT = np.array(IrrMngt.SMT, dtype=float)
 
@@ -73,6 +73,10 @@ def read_irrigation_management(
     for a, v in IrrMngt.__dict__.items():
         if hasattr(irr_mngt_struct, a):
             irr_mngt_struct.__setattr__(a, v)
+
+    # the daily schedule lives on the internal struct only: the user's
+    # IrrigationManagement object keeps its Date/Depth table
+    irr_mngt_struct.Schedule = schedule
 
     ParamStruct.IrrMngt = irr_mngt_struct
     ParamStruct.FallowIrrMngt = IrrMngtStruct(len(ClockStruct.time_span))
